@@ -114,6 +114,7 @@ def run(R, tier):
     R.floor("R11.3", "fallible write call sites", n_sites, 45)
     # response unit keeps the first failure (shared with C05/R05.6)
     _latch(R, P, u)
+    _finish_keeps(R, P, u)
     _surface(R, P, u)
     # R11.7 ... and every writer hands a refused write back as it is (emit.check_all_writers, shared with C05/R05.9)
     from . import emit as E
@@ -189,6 +190,36 @@ def _latch(R, P, u, rule="R11.3"):
                 fres = final.fields.get(ri_) if isinstance(final, AggV) else None
                 keep = isinstance(fres, EnumV) and fres.name == "Err" and isinstance(fres.fields.get(0), SymV) and fres.fields[0].id == "first-error"
                 R.check(not writes and keep, rule, "ResponseUnit::%s[after-error,%s]" % (meth, flags), "after a failed write nothing more is written and the failure is kept", "after a failed write (e.g. -225) ResponseUnit::%s still writes %s / replaces the stored error by %r: a later, shorter datum would turn the failure into a truncated success" % (meth, writes, fres), where=b.span)
+
+
+def _finish_keeps(R, P, u, rule="R11.3"):
+    """finish() hands out the stored outcome and leaves it stored: a handler that polls finish() after every datum and once
+    more at the end still gets the failure (seed C11-O: `mem::replace(&mut self.result, Ok(()))` lets the second call say Ok)"""
+    from . import emit as E_
+    eng = fdai.Engine(P, u, inline=E_._helpers_of_response_module(P), models={})
+    b = u.body("scpi::parser::response::ResponseUnit::finish")
+    ri_ = E_.unit_layout(u)[1]
+    bad = []
+    for flags in ((False, False), (True, False), (False, True), (True, True)):
+        for label, stored in (("failure", fdai.mk_err(SymV("first-error", "first-error"))), ("success", fdai.mk_ok(fdai.UNIT))):
+            ucell = Cell(E_.mk_unit(u, E_.unit_states(P)[flags], result=stored), "unit")
+            try:
+                res = eng.run(b, [RefV(ucell, (), True)])
+            except (fdai.TooManyPaths, RecursionError):
+                res = []
+            if len(res) != 1 or res[0].outcome != "return":
+                bad.append("%s/%s: %d paths" % (label, flags, len(res)))
+                continue
+            rv = res[0].retval
+            after = load(Loc(ucell, ())).fields.get(ri_)
+            def same(x):
+                if label == "failure":
+                    return isinstance(x, EnumV) and x.name == "Err" and isinstance(x.fields.get(0), SymV) and x.fields[0].id == "first-error"
+                return isinstance(x, EnumV) and x.name == "Ok"
+            writes = [e.name for e in res[0].trace if e.kind == "call" and ("Formatter::" in e.name or "format_response_data" in e.name)]
+            if not same(rv) or not same(after) or writes:
+                bad.append("stored %s, unit state %s: finish() returns %r, afterwards the unit holds %r, writes %s" % (label, flags, rv, after, writes))
+    R.check(not bad, rule, "ResponseUnit::finish[idempotent]", "returns the stored outcome, leaves it stored and writes nothing (8 unit states)", "; ".join(bad[:3]), where=b.span)
 
 
 def _surface(R, P, u):
